@@ -71,7 +71,11 @@ def styled (w : String) (style : Nat) : String :=
   | 4 => ".".intercalate parts
   | _ => String.ofList (("_".intercalate parts).toList.map toUpperA)
 
-def rustPrimNames : List String := ["String", "Vec", "Option", "Box", "Rc", "Self"]
+/-- PascalCase names that the fixed prelude of every generated file already uses (std prelude types and
+    traits, the imported `Rc`/`Read`/`Write`, the derive names): a component of that name shadows them and
+    the file no longer compiles. Outside `NamesSeparated`; exercised by a dedicated stream (known finding). -/
+def rustPrimNames : List String := ["String", "Vec", "Option", "Box", "Rc", "Self", "Result", "Default", "Debug", "Clone", "Some",
+  "None", "Ok", "Err", "Read", "Write", "Send", "Sync", "Sized", "Drop", "Fn", "Iterator", "Into", "From", "ToString", "YaSerialize", "YaDeserialize"]
 
 /-- a fresh type-like name in namespace `ns`: its PascalCase image is new there (NamesSeparated) and is
     not a name the prelude of every generated file already uses -/
@@ -383,7 +387,9 @@ def genWsdlSet : M SchemaSet := do
       else pure none
     let action ← if (← chance 1 2) then pure (some (← pick urlPool)) else pure none
     ops := ops ++ [{ name := opName, soapAction := action, input := di, output := out }]
-  let svc ← freshOpName [] []
+  let mut svc ← freshOpName [] []
+  while rustPrimNames.contains (Ref.typeName svc) || (Ref.typeName svc).endsWith "Envelope" do
+    svc ← freshOpName [] []
   let w : Wsdl := { fileName := "service.wsdl", schemaFile := s.start, messages := msgs, portType := svc ++ "PortType",
                     binding := svc ++ "Binding", ops := ops, service := svc, port := svc ++ "Port", address := (← pick urlPool) }
   pure { s with files := s.files.set s.start f', wsdl := some w }
